@@ -47,6 +47,9 @@ ASSUME Need(Has("TEM_P", 0, 0, 0, 1, Dom16) /\ Has("TEM_P", 0, 0, 0, 0, Dom16), 
 ASSUME \A t \in {"BDY", "HDY"} : Need(Both(t, 0, 0, {"all8"}), <<"weekday", t>>)
 ASSUME Need(\E k \in 1..Len(Fams) : Fams[k].v # 0 /\ Types[Fams[k].t].k = "bits", "list on bits")
        /\ Need(\E k \in 1..Len(Fams) : Fams[k].v # 0 /\ Types[Fams[k].t].bits = 16, "list on 16 bit")
+(* fields decoded as the second field of a message (one field set, one output stream), text and JSON *)
+ASSUME WithJson => \A t \in {"EXP", "EXR", "FLT", "UCH", "BCD", "BDA:3"} : \A f \in {5, 6} :
+         Need(\E k \in 1..Len(Fams) : Fams[k].t = t /\ Fams[k].f = f /\ Fams[k].dom = "pairs", <<"pairs", t, f>>)
 ASSUME PrintT(<<"VF", "FAMILIES", Len(Fams)>>)
 
 VARIABLE dummy
